@@ -54,8 +54,44 @@ def rsim(ctx, V, exe, n, styles=("healthy", "mixed", "faults"), prefix="rsim", m
     return sessions
 
 
+def xpoll_correspond(ctx, V):
+    """R-XPOLL: the real xpoll() (poll and gettimeofday wrapped: every poll call is interrupted as long as the case supplies
+    clock readings) against Model/Xpoll.v; monitor: with a finite time-out no poll call may get a negative (= infinite) one"""
+    r = ctx.repo
+    exe = ctx.cc([vlib.VERIF + "/harness/xpoll_h.c"] + [r + "/src/libcommon/" + f for f in ("xpoll.c", "xmalloc.c", "error.c", "hprintf.c", "xread.c")],
+                 "xpoll_h", extra=["-Wl,--wrap=poll", "-Wl,--wrap=gettimeofday"])
+    model = ctx.ocaml_driver("xpoll_model", "xpollmodel", "xpoll_drv.ml")
+    rng = ctx.rng
+    cases = ["2000000 1000000000 1000700000 1001500000", "2000000 1000000000 1002000100", "- 5 6", "1500 0 1200", "0 7 7", "999 0 998 999 1000 1001"]
+    for _ in range(400 if ctx.tier == "quick" else 20000):
+        if rng.random() < 0.1:
+            cases.append("- " + " ".join(str(rng.randrange(10**9)) for _ in range(rng.randint(0, 3)))); continue
+        tv = rng.choice([0, 1, 999, 1000, 1001, 50000, 999999, 1000000, 1000001, 2000000, 5000000, rng.randrange(1, 10**8)])
+        start = rng.choice([0, 10**9, rng.randrange(10**12)])
+        t, rd = start, []
+        for _ in range(rng.randint(0, 4)):
+            t += rng.choice([0, 1, 999, 1000, tv // 2, tv - 1, tv, tv + 1, tv + 1000, rng.randrange(0, 2 * tv + 2)])
+            rd.append(t)
+        cases.append("%d %d %s" % (tv, start, " ".join(map(str, rd))))
+    inp = ("\n".join(cases) + "\n").encode()
+    rc1, o1, e1 = vlib.sh(["timeout", "-s", "KILL", "60", exe], shell=False, inp=inp, timeout=70, env={"ASAN_OPTIONS": "detect_leaks=0"})
+    rc2, o2, e2 = vlib.sh(["timeout", "-s", "KILL", "60", model], shell=False, inp=inp, timeout=70)
+    if rc1 != 0 or rc2 != 0:
+        V.tie_broken("correspondence", "R-XPOLL", "harness rc=%s model rc=%s %s %s" % (rc1, rc2, e1[-300:], e2[-300:])); return
+    for c, a, b in zip(cases, o1.splitlines(), o2.splitlines()):
+        V.case(("xpoll", c), nontrivial=len(c.split()) > 2); V.count("xpoll-cases")
+        tmos = [int(x) for x in a.split()[1:]]
+        if not c.startswith("-") and any(t < 0 for t in tmos):
+            V.violation("no-timerless-wait", "xpoll-negative-timeout", dict(case=c, poll_timeouts=tmos),
+                        "xpoll was asked for a finite wait but handed poll a negative (infinite) time-out after EINTR: %s -> %s" % (c, tmos))
+        elif a != b:
+            V.tie_broken("correspondence", "R-XPOLL", "case %s: implementation %s, model %s" % (c, a, b), case=c)
+    V.rule = (V.rule + " || " if V.rule else "") + "R-XPOLL: xpoll() with interrupted poll calls (clock readings before/at/after the deadline) vs Model/Xpoll.v; monitor: no negative time-out for a finite wait"
+
+
 def run(ctx, V):
-    proofs_ok = vlib.proof_gate(ctx, V, extract=["Extract/ExDaemon.vo", "Extract/ExEnqueue.vo"])
+    proofs_ok = vlib.proof_gate(ctx, V, extract=["Extract/ExDaemon.vo", "Extract/ExEnqueue.vo", "Extract/ExXpoll.vo"])
+    xpoll_correspond(ctx, V)
     exe = pmsim.build(ctx)
     rsim(ctx, V, exe, int(os.environ.get('C04_N', 0)) or 300 if ctx.tier == "quick" else 6000, styles=("mixed", "faults", "healthy"), prefix="c04")
 
